@@ -152,3 +152,9 @@ pub mod util {
         Ok(qname)
     }
 }
+
+/// Hooks for out-of-tree verification harnesses (not part of the API).
+#[cfg(nlnetlabs_domain_verif)]
+pub mod verif_hooks {
+    pub use super::in_memory::{Version, Versioned};
+}
